@@ -85,6 +85,7 @@ MUTANTS = [
     ("pytree-leaves-isolated", ["C08"], P, "                if not is_check_leaftype(leaf):\n                    return False", "                _bak = get_shape_memo()\n                _bak = tuple(d.copy() for d in _bak)\n                _ok = is_check_leaftype(leaf)\n                set_shape_memo(*_bak)\n                if not _ok:\n                    return False"),
     # (pytree-flatten-flag-not-set: equivalent within the generated domain -- leaf boundaries never depend on shapes)
     ("pytree-empty-rejected", ["C08"], P, "        if cls.structure is not None:\n            if cls.structure.isidentifier():", "        if len(leaves) == 0 and obj != ():\n            return False\n        if cls.structure is not None:\n            if cls.structure.isidentifier():"),
+    ("oldstyle-add-note-unguarded", ["C07", "C05"], D, "                            try:\n                                e.add_note(note)\n                            except Exception:", "                            e.add_note(note)\n                            try:\n                                pass\n                            except Exception:"),
     ("struct-bind-in-stale-memo", ["C09"], P, "        _, _, pytree_memo, _ = get_shape_memo()\n        if cls.structure is not None:", "        if cls.structure is not None:"),
     ("struct-prefix-suffix-swapped", ["C09"], P, 'if pieces[0] == "...":\n                    pieces = pieces[1:]\n                    prefix = False\n                    suffix = True', 'if pieces[0] == "...":\n                    pieces = pieces[1:]\n                    prefix = True\n                    suffix = False'),
     ("struct-compose-reversed", ["C09"], P, "                for identifier in pieces:\n                    try:", "                for identifier in reversed(pieces):\n                    try:"),
